@@ -59,11 +59,12 @@ ClassifyThrottle(rec) ==
   ELSE IF ~rec.recovered THEN "did_not_recover"
   ELSE "ok"
 
-\* vault: reqs = <<[t, gen, code]>> in server order; invalid = generations invalidated by the server (at which instant)
+\* vault: reqs = <<[t, sent, gen, code]>> in server order (sent: when the request left the client; one that left before the
+\* re-authentication with the old credentials and arrives after it is not a reuse); invalid = generations invalidated by the server (at which instant)
 ClassifyVault(rec) ==
   IF rec.logins # rec.expected_logins THEN "wrong_number_of_reauthentications"
   ELSE IF \E i \in DOMAIN rec.reqs : \E j \in DOMAIN rec.reqs :
-            i < j /\ rec.reqs[i].code = 401 /\ rec.reqs[j].gen = rec.reqs[i].gen /\ rec.reqs[j].t > rec.relogin_t
+            i < j /\ rec.reqs[i].code = 401 /\ rec.reqs[j].gen = rec.reqs[i].gen /\ rec.reqs[j].sent > rec.relogin_t
        THEN "invalidated_credentials_reused"
   ELSE IF ~rec.all_done THEN "blocked_request_never_proceeded"
   ELSE "ok"
